@@ -156,7 +156,9 @@ ShortGap(m, k, gap) == ~m.kev[k] /\ m.lastat[k] >= 0 /\ gap < m.bound - Slack(m.
 
 EvViol(m, k, e, gap, cin) ==
     IF ~m.run THEN ""                                         \* late arrival of a cancelled request: not judged
-    ELSE IF m.first /\ e.ev # "started" THEN "C15.ev.started"
+    \* ("completed" may be the first one to ARRIVE: the download can finish while "started" is still on its way, and
+    \*  the announcer then cancels that request in favour of "completed")
+    ELSE IF m.first /\ e.ev # "started" /\ ~(e.ev = "completed" /\ cin) THEN "C15.ev.started"
     ELSE IF e.ev = "completed" /\ m.csent THEN "C15.ev.completed.twice"
     ELSE IF e.ev = "completed" /\ ~cin THEN "C15.ev.completed.notinrun"
     ELSE IF ShortGap(m, k, gap) /\ m.short[k] + 1 >= cfg.gapk THEN "C15.gap"
